@@ -202,6 +202,41 @@ def run(tier, seed, replay=None):
                     res.violation("check prints dead-code violations %s, analyze reports %s" % (sorted(pdead), sorted(want_dead)), info)
                 elif pcyc != want_cyc:
                     res.violation("check prints cycles %s, analyze reports %s" % (sorted(map(sorted, pcyc)), sorted(map(sorted, want_cyc))), info)
+        # "…or when an analysis could not run": a missing --config file makes the config-reading analyses fail (complexity, dead code,
+        # clones) while the dependency check still runs.  WHICH analyses failed is read from the tool's own failure lines; the model
+        # then says what the exit status must be.
+        root = os.path.join(tmp, "err")
+        write_project(os.path.join(root, "proj"), [2], [], 1)
+        with open(os.path.join(root, "unparsable.py"), "w") as f:
+            f.write("def f(:\n  (((\n")
+        err_lines, err_meta = [], []
+        for sel in (["complexity", "deps"], ["deadcode", "deps"], ["deps"], ["complexity"], ["clones", "deps"], ["complexity", "deadcode", "deps"],
+                    ["clones"], ["deadcode"], None):
+            for extra in (["--config", os.path.join(root, "missing.toml")], ["--config", os.path.join(root, "missing.toml"), "--max-cycles", "1"],
+                          ["--config", os.path.join(root, "missing.toml"), "--allow-circular-deps", "--allow-dead-code"]):
+                args = (["check", "--skip-clones"] if sel is None else ["check", "--select", ",".join(sel)]) + extra
+                rc, out, err = C.pyscn(args + ["proj"], cwd=root)
+                nruns += 1
+                failed = {"complexity": "Complexity analysis failed" in err, "deadcode": "Dead code analysis failed" in err,
+                          "clones": "Clone detection failed" in err, "deps": "Circular dependency check failed" in err}
+                selmask = "-" if sel is None else "".join("1" if a in sel else "0" for a in ANALYSES)
+                mcyc = 1 if "--max-cycles" in extra else 0
+                line = "gate %s 10 0 %d %d %d %d %s %s %s %s 0" % (selmask, int("--allow-dead-code" in extra), int(sel is None), int("--allow-circular-deps" in extra), mcyc,
+                                                              "E" if failed["complexity"] else "0:2", "E" if failed["deadcode"] else "c:",
+                                                              "E" if failed["clones"] else "0", "E" if failed["deps"] else "1")
+                err_lines.append(line)
+                err_meta.append((args, rc, err, failed))
+        want = C.driver_batch(err_lines) if os.path.exists(C.driver_path()) else []
+        for line, w, (args, rc, err, failed) in zip(err_lines, want, err_meta):
+            exp_rc = 0 if w == "1" else 1
+            hist["exit0" if rc == 0 else "exit1"] += 1
+            hist["analysis_failed_runs"] = hist.get("analysis_failed_runs", 0) + (1 if any(failed.values()) else 0)
+            nontrivial.add(line + "|err")
+            if rc != exp_rc:
+                diffs += 1
+                res.violation("pyscn %s: exit %d although it reported %s as failed; the gate model says %d" %
+                              (" ".join(args), rc, [k for k, v in failed.items() if v], exp_rc),
+                              {"project": "1 function, 1 cycle; --config points to a missing file", "flags": args, "exit": rc, "model_line": line, "stderr": err[-600:]})
         # the excluded point of C19_gate: a negative --max-cycles
         root = os.path.join(tmp, "neg")
         write_project(os.path.join(root, "proj"), [2], [], 0)
